@@ -663,8 +663,9 @@ SEMI = ['semi', ';', True, {}]
 
 
 @st.composite
-def script(draw, min_statements=1, max_statements=4, comments=10, stmt=None, last_semi=None, **lay):
-    """-> laid-out lexeme list (with marks) of k statements separated by ';' lexemes"""
+def script(draw, min_statements=1, max_statements=4, comments=10, stmt=None, last_semi=None, go=False, **lay):
+    """-> laid-out lexeme list (with marks) of k statements separated by ';' lexemes (go=True: some separators are
+    followed by a GO batch-separator keyword, which ends a batch just like the ';' before it ended the statement)"""
     k = draw(st.integers(min_statements, max_statements))
     stmts = [draw(stmt if stmt is not None else statement()) for _ in range(k)]
     lex = []
@@ -672,6 +673,8 @@ def script(draw, min_statements=1, max_statements=4, comments=10, stmt=None, las
         lex.extend(s)
         if i < k - 1 or (draw(st.booleans()) if last_semi is None else last_semi):
             lex.append(list(SEMI))
+            if go and draw(st.integers(0, 2)) == 0:
+                lex.append(L('kw', 'GO', False, go=True))
     return draw(layout(lex, comments=comments, **lay))
 
 
